@@ -1679,8 +1679,29 @@ func (ex *Exec) execTypeSwitch(st *State, s *ast.TypeSwitchStmt) *Flow {
 				conds = append(conds, tEq(x.T, intLit(0)))
 				continue
 			}
-			if _, isIface := tt.Underlying().(*types.Interface); isIface {
-				panic(unsupported("type switch on interface case"))
+			if it, isIface := tt.Underlying().(*types.Interface); isIface {
+				// case Iface: the dynamic type is one of the module's types that implement it
+				var alts []*Term
+				for _, pk := range ex.w.Pkgs {
+					sc := pk.Types.Scope()
+					for _, n := range sc.Names() {
+						tn, ok := sc.Lookup(n).(*types.TypeName)
+						if !ok || tn.IsAlias() {
+							continue
+						}
+						if _, isI := tn.Type().Underlying().(*types.Interface); isI {
+							continue
+						}
+						for _, cand := range []types.Type{tn.Type(), types.NewPointer(tn.Type())} {
+							if types.Implements(cand, it) {
+								alts = append(alts, tEq(dynType(x.T), ex.w.typeTag(cand)))
+							}
+						}
+					}
+				}
+				sort.Slice(alts, func(i, j int) bool { return alts[i].String() < alts[j].String() })
+				conds = append(conds, tAnd(tNot(tEq(x.T, intLit(0))), tOr(alts...)))
+				continue
 			}
 			conds = append(conds, tAnd(tNot(tEq(x.T, intLit(0))), tEq(dynType(x.T), ex.w.typeTag(tt))))
 			single = tt
